@@ -4,7 +4,7 @@
 import re
 
 B_HOST = ["a.com", "b.a.co.uk", "télérama.fr", "shop.example.org", "facebook.com", "youtube.com"]
-B_PATH = ["", "/p", "/p/q", "/P/Q.html", "/a b/é", "/a%2fb%20c"]
+B_PATH = ["", "/p", "/p/q", "/P/Q.html", "/a b/é", "/a%2fb%20c", "/p/amp/index"]
 B_FRAG = ["", "/home/inbox", "!/home"]
 B_QUERY = [[], ["x=1"], ["x=1", "y=2"], ["y=2", "x=1", "z"], ["id=", "x=a b"], ["z", "z=", "z=1"]]
 BASE = [("b_host", B_HOST), ("b_path", B_PATH), ("b_query", list(range(len(B_QUERY)))), ("b_frag", B_FRAG)]
